@@ -30,6 +30,8 @@ type UpSpec struct {
 	QoS    string `json:"qos"`
 	Flush  string `json:"flush"` // immediate | size64
 	Writes int    `json:"writes_phase_a"`
+	// AckTimeoutMs configures WithUpstreamAckTimeout (0 = library default: no ack timeout).
+	AckTimeoutMs int `json:"ack_timeout_ms,omitempty"`
 }
 
 type DownSpec struct {
@@ -441,6 +443,9 @@ func Run(s Scenario) *Outcome {
 		rec := uplib.NewRecorder(w.Clock)
 		u.out.Rec = rec
 		uo := append(rec.Options(), iscp.WithUpstreamQoS(qos(us.QoS)), iscp.WithUpstreamCloseTimeout(5*time.Second))
+		if us.AckTimeoutMs > 0 {
+			uo = append(uo, iscp.WithUpstreamAckTimeout(time.Duration(us.AckTimeoutMs)*time.Millisecond))
+		}
 		if us.Flush == "size64" {
 			uo = append(uo, iscp.WithUpstreamFlushPolicyBufferSizeOnly(64))
 		} else {
